@@ -412,4 +412,57 @@ theorem seq_strict_ge_reference (I : SeqInst) (cap init : ℚ) (hL : 3 ≤ I.L) 
       have hw1 : w v 1 = 0 := h1 ▸ hm0
       rw [h1, Finset.sum_range_one, hw.start v hv, hw1, hc00]
 
+/-! ## non-vacuity -/
+
+/-- `CapFree` requires zero demands: the instances use `C15.nv_g0`, the zero-demand twin of the reachable graph
+    (depot + customers `a [2,5]`, `b [6,9]`, no arc `b → a`), with capacity data `0, 0` -/
+theorem nv_capFree (g : Graph) (h : g.nodes.all (fun n => n.demand = 0) = true) : CapFree g 0 0 := by
+  refine ⟨fun i => ?_, le_rfl, le_rfl⟩
+  unfold Graph.demand
+  cases hn : g.nodes[i]? with
+  | none => rfl
+  | some n => simpa using (List.all_eq_true.1 h) n (List.mem_of_getElem? hn)
+
+/-- arc-based on the grid `[0, 2, 4, 6, 8]` (all service times of the three valid routes), 15 variables -/
+def nv_I0 : ArcInst := ({ g := C15.nv_g0, T := [] } : ArcInst).addTimePoints [8, 0, 4, 2, 6]
+
+theorem nv_I0_wf : C05.WF nv_I0 := ⟨by decide +kernel, by decide +kernel, C15.nv_inv0⟩
+
+theorem nv_I0_grid : CompleteGrid nv_I0 0 0 := by
+  intro r hr
+  rcases nv_valid_enum _ C15.nv_inv0 (by decide +kernel) (by decide +kernel) (by decide +kernel) 0 0 r hr
+    with rfl | rfl | rfl <;> decide +kernel
+
+/-- `d@0 → a@2 → b@6 → d@8` -/
+def nv_x0 : Vec := vecOf [1, 0, 0, 0, 0, 0, 1, 0, 0, 1]
+
+/-- all hypotheses of `arc_complete_grid_eq_reference` (hence of `reference_to_arc`, `arc_to_reference`) hold;
+    left to right on `nv_x0` (cost 4), right to left on the two-route partition (cost 7) -/
+theorem nv_I0_eq (c : ℚ) : (∃ x, IsBin nv_I0.data.n x ∧ nv_I0.data.feasibleB x = true ∧ nv_I0.data.objective x = c)
+    ↔ (∃ rs, IsPartition nv_I0.g 0 0 rs ∧ partitionCost nv_I0.g 0 0 rs = c) :=
+  arc_complete_grid_eq_reference nv_I0 nv_I0_wf (by unfold C05.PosTimes; decide +kernel) 0 0
+    (nv_capFree _ (by decide +kernel)) (by decide +kernel) (by decide +kernel) (by decide +kernel) (by decide +kernel)
+    nv_I0_grid c
+
+example : ∃ rs, IsPartition nv_I0.g 0 0 rs ∧ partitionCost nv_I0.g 0 0 rs = 4 :=
+  (nv_I0_eq 4).1 ⟨nv_x0, by unfold IsBin; decide +kernel, by decide +kernel, by decide +kernel⟩
+
+theorem nv_I0_part : IsPartition nv_I0.g 0 0 [[0, 1, 0], [0, 2, 0]] := by
+  refine ⟨by unfold C06.ValidRoute; decide +kernel, by decide, fun k h1 h2 => ?_⟩
+  have h3 : nv_I0.g.nodes.length = 3 := by decide +kernel
+  have : k = 1 ∨ k = 2 := by omega
+  rcases this with rfl | rfl <;> decide +kernel
+
+example : ∃ x, IsBin nv_I0.data.n x ∧ nv_I0.data.feasibleB x = true ∧ nv_I0.data.objective x = 7 :=
+  (nv_I0_eq 7).2 ⟨_, nv_I0_part, by decide +kernel⟩
+
+/-- all hypotheses of `seq_strict_ge_reference` hold for the strict instance `C07.nv_St` (constructor on
+    `C15.nv_g0`, two vehicles, four positions) and the walk `C07.nv_w` (`d, a, b, d` / depot only): cost 4 -/
+example : ∃ rs, IsPartition C07.nv_St.g 0 0 rs ∧ partitionCost C07.nv_St.g 0 0 rs = 4 := by
+  have h := seq_strict_ge_reference C07.nv_St 0 0 (by decide) C07.nv_St_strict.2 C07.nv_St_strict.1
+    (nv_capFree _ (by decide +kernel)) (by decide +kernel) (by decide +kernel) (by decide +kernel) (by decide +kernel)
+    (fun v => by match v with | 0 => rfl | 1 => rfl | _ + 2 => rfl) C07.nv_w C07.nv_walk_t
+  rwa [show (sumTo C07.nv_St.V fun v => sumTo (C07.nv_St.L - 1) fun p =>
+    C07.arcCost C07.nv_St.g (C07.nv_w v p) (C07.nv_w v (p + 1)) + C07.nv_St.vc v) = 4 by decide +kernel] at h
+
 end Vrp.C08
